@@ -11,7 +11,8 @@ MANIFEST = dict(
     text="Coq theorems about a model of hash_single/bytes_repr (Model/Hash.v, blake2b an uninterpreted parameter): "
          "C08_context_free_acyclic (for values without reference cycles the digest under any Cache built by earlier "
          "hash calls equals the digest alone), C08_order_invariant (set iteration order / dict insertion order do "
-         "not change the digest when `<` is a strict total order on the elements), C08_ser_injective (equal digests "
+         "not change the digest when `<` is a strict total order on the elements), C08_order_invariant_deep (the same with "
+         "sets re-ordered at every nesting level simultaneously, e.g. chains of nested frozensets), C08_ser_injective (equal digests "
          "imply equal values or an explicit blake2b collision among the hashed strings, on the fragment without "
          "PathLike/tuple/frozenset dict keys), and refutations C08_refuted_cycle, C08_refuted_partial_order, "
          "C08_refuted_pathkey. Partial: types and functions are modelled only as byte strings taken from the code. "
